@@ -48,6 +48,7 @@ func ParseReadSeeker(r io.ReadSeeker) (topOp Operation, err error) {
 	s := scannerPool.Get().(*scanner)
 	defer func() {
 		s.err = nil
+		s.src = nil
 		scannerPool.Put(s)
 	}()
 
@@ -131,6 +132,22 @@ func erInvalid(s *scanner, validRunes ...rune) error {
 type scanner struct {
 	sx  *sc.Scanner
 	err error
+	src *errCapturingReader
+}
+
+// errCapturingReader remembers the first non-EOF error returned by the wrapped reader,
+// so that a reader that fails part-way is reported instead of being treated as end of input.
+type errCapturingReader struct {
+	r   io.Reader
+	err error
+}
+
+func (e *errCapturingReader) Read(p []byte) (n int, err error) {
+	n, err = e.r.Read(p)
+	if err != nil && err != io.EOF && e.err == nil {
+		e.err = err
+	}
+	return
 }
 
 func newScanner() *scanner {
@@ -150,8 +167,11 @@ func (s *scanner) Reset(reader io.ReadSeeker) error {
 	if err != nil {
 		return err
 	}
-	s.sx.Init(reader)
+	s.src = &errCapturingReader{r: reader}
+	s.sx.Init(s.src)
 	s.sx.Mode = sc.ScanIdents | sc.ScanChars | sc.ScanStrings | sc.ScanRawStrings | sc.ScanComments | sc.SkipComments
+	// Init resets the error handler; without one text/scanner prints to os.Stderr
+	s.sx.Error = func(es *sc.Scanner, msg string) {}
 	return nil
 }
 
@@ -173,5 +193,8 @@ func (s *scanner) Scan() (r rune) {
 }
 
 func (s *scanner) Err() error {
+	if s.src != nil && s.src.err != nil {
+		return s.src.err
+	}
 	return s.err
 }
